@@ -286,16 +286,92 @@ def rule_own_row(chk):
 def rule_reorder(chk):
     sol = M.py(SOL)
     solve = M.find_method(sol, 'Solver', 'solve')
-    calls = [c for c in M.calls(solve) if M.call_name(c) == 'self.reorder_particles']
-    from verif_static import norm as N
-    ld_ = N.local_defs(solve.body)         # the frequency may be read through a local
-    gtests = [N.inline(M.enclosing(c, (ast.If,)).test, ld_) for c in calls if M.enclosing(c, (ast.If,)) is not None]
-    guards = [compact(x) for x in gtests]
+    # decided per path through one iteration of the time loop (private helpers inlined, locals substituted): the particles are re-ordered exactly when the frequency is
+    # positive and the iteration count is a multiple of it; and once before the loop when the frequency is positive
+    from verif_static import norm as N, paths as PT
+    scls = M.find_class(sol, 'Solver')
+    icls = M.inlined_class(scls, keep=set(n_ for n_ in M.methods(scls) if not n_.startswith('_')) |
+                           set(['_get_timestep', '_dump_output_if_needed', '_compute_timestep', '_damp_timestep', '_get_solver_data', '_get_undamped_timestep', '_post_stage_callback']))
+    solve = M.find_func(icls, 'solve')
+    loops_ = [l for l in solve.body if isinstance(l, ast.While)]
+    ld_ = N.local_defs(solve.body)
+    F = 'self.reorder_freq'
 
-    def has(t, text):
-        return any(N.same(x, text) for x in ast.walk(t) if isinstance(x, (ast.Compare, ast.BoolOp)))
-    chk.decide(len(calls) == 2 and any(N.same(t, 'self.reorder_freq > 0') for t in gtests) and any(has(t, 'self.count % self.reorder_freq == 0') for t in gtests), 'reordering', 'schedule',
-               node=solve, file=SOL, func='Solver.solve', detail_bad='re-ordering guards: %s' % guards, detail_ok='once at start and every reorder_freq iterations')
+    cache_ = {}
+
+    def formula(x):
+        """the test as a boolean formula over P (frequency > 0) and D (count a multiple of it); None for anything else"""
+        key = ast.dump(x)
+        if key in cache_:
+            return cache_[key]
+        r = None
+        if isinstance(x, ast.BoolOp):
+            r = ('and' if isinstance(x.op, ast.And) else 'or', [formula(v) for v in x.values])
+        elif isinstance(x, ast.UnaryOp) and isinstance(x.op, ast.Not):
+            r = ('not', [formula(x.operand)])
+        else:
+            y = N.inline(x, ld_)
+            for nm_, pos, neg in (('P', F + ' > 0', F + ' <= 0'), ('D', 'self.count %% %s == 0' % F, 'self.count %% %s != 0' % F)):
+                if N.same(y, pos):
+                    r = ('atom', nm_, True)
+                elif N.same(y, neg):
+                    r = ('atom', nm_, False)
+        cache_[key] = r
+        return r
+
+    def val(f, env):
+        if f is None:
+            return None
+        if f[0] == 'atom':
+            return env[f[1]] == f[2]
+        vs = [val(g_, env) for g_ in f[1]]
+        if f[0] == 'not':
+            return None if vs[0] is None else not vs[0]
+        if f[0] == 'and':
+            return False if any(v is False for v in vs) else (None if any(v is None for v in vs) else True)
+        return True if any(v is True for v in vs) else (None if any(v is None for v in vs) else False)
+
+    pcache_ = {}
+
+    def possible(p_, env):
+        """can the path be taken when P and D have these values (tests on anything else are open)"""
+        fl = pcache_.get(id(p_))
+        if fl is None:
+            fl = []
+            for e in p_:
+                if e.kind == 'cond' and 'reorder' in ast.unparse(PT.resolve(e.node, e.env)):
+                    f_ = formula(PT.resolve(e.node, e.env))
+                    if f_ is not None:
+                        fl.append((f_, e.truth))
+            pcache_[id(p_)] = fl
+        return all(val(f_, env) in (None, tr_) for f_, tr_ in fl)
+    bad, ncall, nskip = None, 0, 0
+    keep_alive = PT.enumerate_paths(list(loops_[0].body)) if loops_ else []          # (the formula cache is keyed by object identity)
+    for p_ in keep_alive:
+        called = any(cal == 'self.reorder_particles' for i, c, cal, env in PT.calls_on(p_))
+        if called:
+            ncall += 1
+            for P_, D_ in ((True, False), (False, True), (False, False)):
+                if possible(p_, {'P': P_, 'D': D_}):
+                    bad = bad or 'a path re-orders although frequency > 0 is %s / the count is a multiple of it is %s' % (P_, D_)
+        else:
+            nskip += 1
+            if possible(p_, {'P': True, 'D': True}):
+                bad = bad or 'a path does not re-order although the frequency is positive and the count a multiple of it'
+    pre_ok = False
+    if loops_:
+        pre = solve.body[:solve.body.index(loops_[0])]
+        keep_alive2 = PT.enumerate_paths(pre)
+        for p_ in keep_alive2:
+            called = any(cal == 'self.reorder_particles' for i, c, cal, env in PT.calls_on(p_))
+            if called and not possible(p_, {'P': False, 'D': True}) and not possible(p_, {'P': False, 'D': False}):
+                pre_ok = True
+            elif called:
+                bad = bad or 'before the loop the particles are re-ordered whatever the frequency'
+            elif possible(p_, {'P': True, 'D': True}) and possible(p_, {'P': True, 'D': False}):
+                bad = bad or 'before the loop the particles are not re-ordered although the frequency is positive'
+    chk.decide(bad is None and ncall > 0 and nskip > 0 and pre_ok, 'reordering', 'schedule',
+               node=solve, file=SOL, func='Solver.solve', detail_bad='re-ordering schedule: %s' % (bad or 'no path re-orders / skips'), detail_ok='once at start and every reorder_freq iterations')
     rp = M.find_method(sol, 'Solver', 'reorder_particles')
     from verif_static import paths as PT
     rpaths = PT.enumerate_paths(M.docstring_stripped(rp.body))
